@@ -1,6 +1,8 @@
 """C10 — mini-batches partition the data and stay aligned with the affinity matrix."""
+import inspect
 import itertools
 import math
+import traceback
 import numpy as np
 from core import Check, enc_list, enc_opt, hx
 import impl
@@ -154,20 +156,235 @@ def stream_decorated(chk, i, rng):
     chk.count(("dec", name, n, bs) if len(got_idx) >= 2 else None)
 
 
-class _Rec:
-    """GEMINI wrapper recording the affinity blocks a model trains / validates with."""
+HERR = []      # exceptions raised by the harness's own recording code during the current case (never raised into the implementation)
+
+
+def spy(orig, record):
+    """Signature-agnostic recording wrapper: forwards *args / **kwargs UNCHANGED to `orig` (positional or keyword calls alike);
+    record(values) receives the call's arguments bound against orig's own signature, in the order of its parameters, defaults
+    applied (bound methods: without self).  An exception of the recording code is noted in HERR and the call goes on; only
+    Budget (a deliberate stop of a run that does not end) is raised."""
+    try:
+        sig = inspect.signature(orig)
+    except (TypeError, ValueError):
+        sig = None
+
+    def wrapper(*args, **kwargs):
+        try:
+            if sig is not None:
+                ba = sig.bind(*args, **kwargs)
+                ba.apply_defaults()
+                record(list(ba.arguments.values()))
+            else:
+                record(list(args) + list(kwargs.values()))
+        except Budget:
+            raise
+        except Exception:           # a call orig itself will reject also lands here: orig then raises its own error below
+            HERR.append(traceback.format_exc(limit=6))
+        return orig(*args, **kwargs)
+    return wrapper
+
+
+def guarded(name, fn):
+    """A case whose failure comes from the harness's instrumentation must not look like a violation of the property:
+    when the instrumented case raises, or its recording code noted an error, the same case is re-run WITHOUT instrumentation;
+    if the implementation raises on its own the exception is reported as such (key <stream>:exception:<type>), otherwise the
+    case is reported under the key <stream>:harness-error and what the unreliable records suggested is dropped."""
+    def g(chk, i, rng):
+        del HERR[:]
+        nfail = len(chk.failures)
+        tb = None
+        try:
+            fn(chk, i, rng)
+        except RuntimeError as e:
+            if str(e).startswith("model "):         # the extracted model rejected the request: a failure of the correspondence
+                raise
+            tb = traceback.format_exc(limit=8)
+        except Exception:
+            tb = traceback.format_exc(limit=8)
+        if tb is None and not HERR:
+            return
+        fn(chk, i, chk.rng(name, i), instrument=False)      # raises if the implementation itself does: run_stream reports it
+        del chk.failures[nfail:]
+        chk.fail(f"{name}:harness-error", "the harness's own instrumentation failed on this case (the implementation alone runs it without error): "
+                 + (tb or HERR[0]).strip().splitlines()[-1], {"traceback": tb or HERR[0]}, layer="harness")
+    return g
 
 
 def make_recording_gemini(log):
+    """GEMINI recording the affinity blocks a model trains / validates with."""
     class RecMMD(impl.G.MMDGEMINI):
-        def evaluate(self, y_pred, affinity, return_grad=False):
-            log.append(("grad" if return_grad else "score", None if affinity is None else np.array(affinity, copy=True), len(y_pred)))
-            return super().evaluate(y_pred, affinity, return_grad)
+        def evaluate(self, *args, **kwargs):
+            try:
+                ba = inspect.signature(super().evaluate).bind(*args, **kwargs)
+                ba.apply_defaults()
+                y_pred, affinity, return_grad = list(ba.arguments.values())[:3]
+                log.append(("grad" if return_grad else "score", None if affinity is None else np.array(affinity, copy=True), len(y_pred)))
+            except Exception:
+                HERR.append(traceback.format_exc(limit=6))
+            return super().evaluate(*args, **kwargs)
     return RecMMD(kernel="precomputed")
 
 
-def stream_fit(chk, i, rng):
-    """A real fit: the recorded sequence of (data rows, affinity block) must be max_iter epochs of the model's batches."""
+def call_arg(args, kwargs, k, *names):
+    """argument k of a call to a stub, however it was spelled (positionally or under one of the library's parameter names)"""
+    if len(args) > k:
+        return args[k]
+    for nm in names:
+        if nm in kwargs:
+            return kwargs[nm]
+    raise TypeError(f"stub called without argument {k} ({'/'.join(names)})")
+
+
+def tag_rows(Xb):
+    """true sample indices of data rows whose first column is index / 8 (exact binary fractions: the tag survives float arithmetic)"""
+    return [int(round(v * 8)) for v in np.asarray(Xb)[:, 0]]
+
+
+def tagged_fit_data(rng, n, d):
+    X = rng.normal(size=(n, d))
+    X[:, 0] = np.arange(n) / 8.0
+    return X, tagged(n)[1] / (n * n)
+
+
+class FitRun:
+    """A real estimator instrumented once (recording GEMINI, _infer, _compute_grads wrapped OUTSIDE any mlcl decoration);
+    run(X, A) fits it and verify(...) checks the recorded trace: partition per epoch, step count, block alignment, the
+    indices the decorated _compute_grads sees, reference model and regenerated code model."""
+
+    def __init__(self, rng, name, bs, max_iter, solver, decorate_below=None, instrument=True):
+        self.name, self.bs, self.max_iter = name, bs, max_iter
+        self.log = []
+        gem = make_recording_gemini(self.log) if instrument else impl.G.MMDGEMINI(kernel="precomputed")
+        self.est = impl.make(name, n_clusters=2, gemini=gem, max_iter=max_iter, batch_size=bs, solver=solver,
+                             random_state=int(rng.integers(0, 1000)))
+        self.decorated = False
+        self.constraints = None
+        if decorate_below is not None and decorate_below >= 2:
+            pairs = [[int(a), int(b)] for a, b in rng.integers(0, decorate_below, size=(4, 2)) if a != b]
+            ml, cl = pairs[:1], pairs[1:2]
+            try:
+                impl.add_mlcl_constraint(self.est, ml or None, cl or None)
+                self.decorated = bool(ml or cl)
+                self.constraints = {"must_link": ml, "cannot_link": cl}
+            except ValueError:
+                pass
+        est = self.est
+        self.rows, self.grows, self.visible, self.limit = [], [], [], 10 ** 9
+        if not instrument:
+            return
+
+        def rec_infer(v):                       # _infer(X, retain=True)
+            if len(v) < 2 or v[1]:
+                self.rows.append(tag_rows(v[0]))
+                if len(self.rows) > self.limit:
+                    raise Budget()
+
+        def rec_cg(v):                          # _compute_grads(X, y_pred, gradient)
+            self.grows.append(tag_rows(v[0]))
+            if self.decorated:
+                # what the decorated _compute_grads is about to read as "the true indices of this batch"
+                self.visible.append([int(k) for k in est._batchify.indices])
+        est._infer, est._compute_grads = spy(est._infer, rec_infer), spy(est._compute_grads, rec_cg)
+
+    def run(self, X, A):
+        """-> number of optimiser steps, or None if the fit did not end within its budget"""
+        n = len(X)
+        del self.log[:], self.rows[:], self.grows[:], self.visible[:]
+        self.limit = self.max_iter * (n + 1) + 2
+        steps = [0]
+        orig_up = BaseOptimizer.update_params
+
+        def counting(opt, *args, **kwargs):
+            steps[0] += 1
+            return orig_up(opt, *args, **kwargs)
+        BaseOptimizer.update_params = counting
+        try:
+            self.est.fit(X, A)
+        except Budget:
+            return None
+        finally:
+            BaseOptimizer.update_params = orig_up
+        return steps[0]
+
+    def verify(self, chk, key, A, nsteps, replay):
+        """-> batches per epoch (for the non-triviality rule)"""
+        est, name, bs, max_iter = self.est, self.name, self.bs, self.max_iter
+        n = len(A)
+        if nsteps is None:
+            chk.fail(key + ":steps", "fit made more than max_iter*(n+1) forward passes: the batching loop does not end", replay, layer="L3")
+            return 0
+        nonpar = name in impl.NONPARAMETRIC
+        train_rows = self.rows[:-1]              # the last retained _infer is the labelling pass over X
+        blocks = [a for kind, a, m in self.log if kind == "grad"]
+        grows = self.grows
+        bs_eff = n if (bs is None or nonpar) else bs
+        per_epoch = math.ceil(n / bs_eff)
+        if self.decorated:
+            stale = [(k, v, g) for k, (v, g) in enumerate(zip(self.visible, grows)) if v != g]
+            if stale or len(self.visible) != len(grows):
+                k, v, g = stale[0] if stale else (len(self.visible), None, None)
+                chk.fail(key + ":decorated-indices-stale", f"step {k}: the decorated _compute_grads reads _batchify.indices={v} while the rows of its "
+                         f"X_batch are samples {g} ({len(stale)} of {len(grows)} steps)", replay, layer="L3")
+        if nsteps != max_iter * per_epoch or len(train_rows) != nsteps or len(blocks) != nsteps:
+            chk.fail(key + ":steps", f"fit performed {nsteps} optimiser steps / {len(train_rows)} forward passes, expected max_iter*ceil(n/bs)={max_iter * per_epoch}", replay, layer="L3")
+        else:
+            epochs_ok = len(grows) == nsteps
+            if not epochs_ok:
+                chk.fail(key + ":steps", f"_compute_grads was called {len(grows)} times for {nsteps} optimiser steps", replay, layer="L3")
+            for e in range(max_iter):
+                ep = train_rows[e * per_epoch:(e + 1) * per_epoch]
+                perm = [v for b in ep for v in b]
+                if not oracle_partition(chk, key, n, bs_eff, ep, dict(replay, epoch=e)):
+                    epochs_ok = False
+                    break
+                if nonpar:
+                    t = chk.ask(f"c10.cat {n}")
+                    exp = t.list(lambda: t.list(t.int))
+                else:
+                    exp = model_epoch(chk, n, bs, perm)
+                if exp != ep:
+                    chk.fail(key + ":model-mismatch", f"epoch {e}: batches {ep} differ from the model's {exp}", replay)
+                    break
+                for b, blk in zip(ep, blocks[e * per_epoch:(e + 1) * per_epoch]):
+                    if not np.array_equal(blk, A[np.ix_(b, b)]):
+                        chk.fail(key + ":block", "affinity block used for a training step is not the block of that step's samples", dict(replay, batch=b, epoch=e), layer="L3")
+                        break
+                if self.decorated and not nonpar and epochs_ok:
+                    t = chk.ask(f"c10.code_decorated_visible {n} {enc_opt(bs)} {enc_list(perm)}")
+                    code = t.opt(lambda: t.list(lambda: (rd_idx(t), rd_idx(t))))
+                    mine = list(zip(self.visible[e * per_epoch:(e + 1) * per_epoch], grows[e * per_epoch:(e + 1) * per_epoch]))
+                    if code is not None and [(list(v), list(g)) for v, g in mine] != code:
+                        chk.fail(key + ":code-model-visible", f"epoch {e}: (indices visible to _compute_grads, rows of its batch)={mine[:3]}, "
+                                 f"regenerated code model {code[:3]}", replay)
+            if epochs_ok and not nonpar:
+                # the whole trace of optimiser steps against the regenerated code model: what _infer, the GEMINI and _compute_grads read
+                perms = [[v for b in train_rows[e * per_epoch:(e + 1) * per_epoch] for v in b] for e in range(max_iter)]
+                t = chk.ask(f"c10.code_fit {max_iter} {n} {enc_opt(bs)} {enc_list(perms, enc_list)}")
+                t.int()
+                code = t.opt(lambda: t.list(lambda: (rd_idx(t), rd_idx(t), rd_idx(t), rd_idx(t))))
+                mine = []
+                for r, blk, g in zip(train_rows, blocks, grows):
+                    rc = decode_block(blk, n, 1.0 / (n * n))
+                    mine.append((r,) + (tuple(rc) if rc else (None, None)) + (g,))
+                if code is None:
+                    chk.fail(key + ":code-model-fuel", "the regenerated code model ran out of fuel", replay)
+                elif code != mine:
+                    k = next((k for k in range(min(len(code), len(mine))) if code[k] != mine[k]), min(len(code), len(mine)))
+                    chk.fail(key + ":code-model-mismatch", f"step {k} of fit reads (infer rows, affinity rows, affinity columns, grads rows)="
+                             f"{mine[k] if k < len(mine) else None}, regenerated code model {code[k] if k < len(code) else None} "
+                             f"({len(mine)} steps vs {len(code)})", replay)
+            chk.traces += 1
+        if est.n_iter_ != max_iter:
+            chk.fail(key + ":n_iter", f"n_iter_={est.n_iter_} but max_iter={max_iter}", replay, layer="L3")
+        mi = chk.ask(f"c10.code_n_iter {max_iter}").int()
+        if est.n_iter_ != mi:
+            chk.fail(key + ":n_iter-model", f"n_iter_={est.n_iter_} but the regenerated code model says {mi}", replay)
+        return per_epoch
+
+
+def stream_fit(chk, i, rng, instrument=True):
+    """A real fit (plain or mlcl-decorated): the recorded sequence of (data rows, affinity block) must be max_iter epochs of the model's batches."""
     names = [k for k in impl.GENERIC_GEMINI]
     name = names[i % len(names)]
     n = int(rng.integers(4, 26))
@@ -175,105 +392,54 @@ def stream_fit(chk, i, rng):
     bs = None if rng.random() < 0.15 else int(rng.integers(1, n + 2))
     max_iter = int(rng.integers(1, 4))
     solver = "sgd" if rng.random() < 0.5 else "adam"
-    X = rng.normal(size=(n, d))
-    X[:, 0] = np.arange(n) / 8.0       # exact binary fractions: the tag survives float arithmetic
-    A = tagged(n)[1] / (n * n)
-    log = []
-    gem = make_recording_gemini(log)
-    kw = dict(n_clusters=2, gemini=gem, max_iter=max_iter, batch_size=bs, solver=solver, random_state=int(rng.integers(0, 1000)))
-    if name == "Douglas":
-        kw["gemini"] = gem
-    est = impl.make(name, **kw)
-    rows = []
-    steps = [0]
-    orig_infer = est._infer
+    decorate = (i // len(names)) % 2 == 1
+    X, A = tagged_fit_data(rng, n, d)
+    run = FitRun(rng, name, bs, max_iter, solver, decorate_below=n if decorate else None, instrument=instrument)
+    if not instrument:
+        run.est.fit(X, A)
+        return
+    replay = {"estimator": name, "n": n, "d": d, "batch_size": bs, "max_iter": max_iter, "solver": solver, "decorated": run.decorated,
+              "constraints": run.constraints}
+    per_epoch = run.verify(chk, "fit", A, run.run(X, A), replay)
+    nonpar = name in impl.NONPARAMETRIC
+    chk.dist["fit:" + name + ("+mlcl" if run.decorated else "")] += 1
+    chk.count(("fit", name, n, bs, max_iter, run.decorated) if per_epoch >= 2 or nonpar else None)
 
-    def rec_infer(Xb, retain=True):
-        if retain:
-            rows.append([int(round(v * 8)) for v in np.asarray(Xb)[:, 0]])
-            if len(rows) > max_iter * (n + 1) + 2:
-                raise Budget()
-        return orig_infer(Xb, retain)
-    est._infer = rec_infer
-    grows = []
-    orig_cg = est._compute_grads
 
-    def rec_cg(Xb, y_pred, grads):
-        grows.append([int(round(v * 8)) for v in np.asarray(Xb)[:, 0]])
-        return orig_cg(Xb, y_pred, grads)
-    est._compute_grads = rec_cg
-    orig_up = BaseOptimizer.update_params
-
-    def counting(self, params, grads):
-        steps[0] += 1
-        return orig_up(self, params, grads)
-    BaseOptimizer.update_params = counting
-    replay = {"estimator": name, "n": n, "d": d, "batch_size": bs, "max_iter": max_iter, "solver": solver}
-    try:
-        est.fit(X, A)
-    except Budget:
-        chk.fail("fit:steps", f"fit made more than max_iter*(n+1) forward passes: the batching loop does not end", replay, layer="L3")
+def stream_refit(chk, i, rng, instrument=True):
+    """The same estimator object (plain or mlcl-decorated, batched or nonparametric) fitted on n1 samples and then on n2 != n1:
+    the second fit must batch the second data set (nothing sized by the first fit may survive)."""
+    names = [k for k in impl.GENERIC_GEMINI]
+    name = names[i % len(names)]
+    n1 = int(rng.integers(4, 22))
+    n2 = int(rng.integers(4, 22))
+    if n2 == n1:
+        n2 = n1 + (3 if rng.random() < 0.5 or n1 < 7 else -3)
+    d = int(rng.integers(2, 5))
+    bs = None if rng.random() < 0.25 else int(rng.integers(1, min(n1, n2) + 1))
+    max_iter = int(rng.integers(1, 3))
+    solver = "sgd" if rng.random() < 0.5 else "adam"
+    decorate = (i // len(names)) % 2 == 0
+    run = FitRun(rng, name, bs, max_iter, solver, decorate_below=min(n1, n2) if decorate else None, instrument=instrument)
+    replay = {"estimator": name, "n1": n1, "n2": n2, "d": d, "batch_size": bs, "max_iter": max_iter, "solver": solver,
+              "decorated": run.decorated, "constraints": run.constraints}
+    X1, A1 = tagged_fit_data(rng, n1, d)
+    X2, A2 = tagged_fit_data(rng, n2, d)
+    if not instrument:
+        run.est.fit(X1, A1)
+        run.est.fit(X2, A2)
+        return
+    if run.run(X1, A1) is None:
+        chk.fail("refit:steps", "the first fit did not end within its budget", replay, layer="L3")
         chk.count(None)
         return
-    finally:
-        BaseOptimizer.update_params = orig_up
+    per_epoch = run.verify(chk, "refit", A2, run.run(X2, A2), replay)
     nonpar = name in impl.NONPARAMETRIC
-    train_rows = rows[:-1]              # the last retained _infer is the labelling pass over X
-    blocks = [a for kind, a, m in log if kind == "grad"]
-    bs_eff = n if (bs is None or nonpar) else bs
-    per_epoch = math.ceil(n / bs_eff)
-    if steps[0] != max_iter * per_epoch or len(train_rows) != steps[0] or len(blocks) != steps[0]:
-        chk.fail("fit:steps", f"fit performed {steps[0]} optimiser steps / {len(train_rows)} forward passes, expected max_iter*ceil(n/bs)={max_iter * per_epoch}", replay, layer="L3")
-    else:
-        epochs_ok = len(grows) == steps[0]
-        if not epochs_ok:
-            chk.fail("fit:steps", f"_compute_grads was called {len(grows)} times for {steps[0]} optimiser steps", replay, layer="L3")
-        for e in range(max_iter):
-            ep = train_rows[e * per_epoch:(e + 1) * per_epoch]
-            perm = [v for b in ep for v in b]
-            if not oracle_partition(chk, "fit", n, bs_eff, ep, dict(replay, epoch=e)):
-                epochs_ok = False
-                break
-            if nonpar:
-                t = chk.ask(f"c10.cat {n}")
-                exp = t.list(lambda: t.list(t.int))
-            else:
-                exp = model_epoch(chk, n, bs, perm)
-            if exp != ep:
-                chk.fail("fit:model-mismatch", f"epoch {e}: batches {ep} differ from the model's {exp}", replay)
-                break
-            for b, blk in zip(ep, blocks[e * per_epoch:(e + 1) * per_epoch]):
-                if not np.array_equal(blk, A[np.ix_(b, b)]):
-                    chk.fail("fit:block", "affinity block used for a training step is not the block of that step's samples", dict(replay, batch=b, epoch=e), layer="L3")
-                    break
-        if epochs_ok and not nonpar:
-            # the whole trace of optimiser steps against the regenerated code model: what _infer, the GEMINI and _compute_grads read
-            perms = [[v for b in train_rows[e * per_epoch:(e + 1) * per_epoch] for v in b] for e in range(max_iter)]
-            t = chk.ask(f"c10.code_fit {max_iter} {n} {enc_opt(bs)} {enc_list(perms, enc_list)}")
-            t.int()
-            code = t.opt(lambda: t.list(lambda: (rd_idx(t), rd_idx(t), rd_idx(t), rd_idx(t))))
-            mine = []
-            for r, blk, g in zip(train_rows, blocks, grows):
-                rc = decode_block(blk, n, 1.0 / (n * n))
-                mine.append((r,) + (tuple(rc) if rc else (None, None)) + (g,))
-            if code is None:
-                chk.fail("fit:code-model-fuel", "the regenerated code model ran out of fuel", replay)
-            elif code != mine:
-                k = next((k for k in range(min(len(code), len(mine))) if code[k] != mine[k]), min(len(code), len(mine)))
-                chk.fail("fit:code-model-mismatch", f"step {k} of fit reads (infer rows, affinity rows, affinity columns, grads rows)="
-                         f"{mine[k] if k < len(mine) else None}, regenerated code model {code[k] if k < len(code) else None} "
-                         f"({len(mine)} steps vs {len(code)})", replay)
-        chk.traces += 1
-    if est.n_iter_ != max_iter:
-        chk.fail("fit:n_iter", f"n_iter_={est.n_iter_} but max_iter={max_iter}", replay, layer="L3")
-    mi = chk.ask(f"c10.code_n_iter {max_iter}").int()
-    if est.n_iter_ != mi:
-        chk.fail("fit:n_iter-model", f"n_iter_={est.n_iter_} but the regenerated code model says {mi}", replay)
-    chk.dist["fit:" + name] += 1
-    chk.count(("fit", name, n, bs, max_iter) if per_epoch >= 2 or nonpar else None)
+    chk.dist["refit:" + ("grow" if n2 > n1 else "shrink") + (":mlcl" if run.decorated else ":plain") + (":nonpar" if nonpar else "")] += 1
+    chk.count(("refit", name, n1, n2, bs, run.decorated) if per_epoch >= 2 or nonpar else None)
 
 
-def stream_path(chk, i, rng):
+def stream_path(chk, i, rng, instrument=True):
     """path(): training epochs use the same batching; validation uses sequential blocks."""
     name = ["SparseLinearModel", "SparseMLPModel"][i % 2]
     n = int(rng.integers(6, 20))
@@ -283,31 +449,28 @@ def stream_path(chk, i, rng):
     X[:, 0] = np.arange(n) / 8.0
     A = tagged(n)[1] / (n * n)
     log = []
-    gem = make_recording_gemini(log)
+    gem = make_recording_gemini(log) if instrument else impl.G.MMDGEMINI(kernel="precomputed")
     est = impl.make(name, n_clusters=2, gemini=gem, max_iter=2, batch_size=bs, alpha=0.5, random_state=int(rng.integers(0, 1000)))
     replay = {"estimator": name, "n": n, "d": d, "batch_size": bs, "path": True}
+    if not instrument:
+        est.path(X, A, alpha_multiplier=3.0, min_features=d - 1, max_patience=1)
+        return
+    tag = tag_rows
 
-    def tag(Xb):
-        return [int(round(v * 8)) for v in np.asarray(Xb)[:, 0]]
-    orig_infer, orig_cg, orig_pp = est._infer, est._compute_grads, est.predict_proba
-
-    def rec_infer(Xb, retain=True):
-        if retain:
-            log.append(("infer", tag(Xb), len(Xb)))
+    def rec_infer(v):                           # _infer(X, retain=True)
+        if len(v) < 2 or v[1]:
+            log.append(("infer", tag(v[0]), len(v[0])))
         if len(log) > 200000:
             raise Budget()
-        return orig_infer(Xb, retain)
 
-    def rec_cg(Xb, y_pred, grads):
-        log.append(("cg", tag(Xb), len(Xb)))
-        return orig_cg(Xb, y_pred, grads)
+    def rec_cg(v):                              # _compute_grads(X, y_pred, gradient)
+        log.append(("cg", tag(v[0]), len(v[0])))
 
-    def rec_pp(Xb):
-        log.append(("proba", tag(Xb), len(Xb)))
+    def rec_pp(v):                              # predict_proba(X)
+        log.append(("proba", tag(v[0]), len(v[0])))
         if len(log) > 200000:
             raise Budget()
-        return orig_pp(Xb)
-    est._infer, est._compute_grads, est.predict_proba = rec_infer, rec_cg, rec_pp
+    est._infer, est._compute_grads, est.predict_proba = spy(est._infer, rec_infer), spy(est._compute_grads, rec_cg), spy(est.predict_proba, rec_pp)
     try:
         est.path(X, A, alpha_multiplier=3.0, min_features=d - 1, max_patience=1)
     except Budget:
@@ -411,17 +574,18 @@ def stream_valscore(chk, i, rng):
         def get_selection(self):
             return np.array(sel, dtype=int)
 
-        def predict_proba(self, Xb):
-            return np.asarray(Xb)[:, :1]        # carries the row tags to the objective
+        def predict_proba(self, *args, **kwargs):
+            return np.asarray(call_arg(args, kwargs, 0, "X"))[:, :1]        # carries the row tags to the objective
     clf = Clf()
     clf.dynamic = dynamic
 
     class Gem:
-        def compute_affinity(self, Xs, y=None):
-            r = [int(v) for v in np.asarray(Xs)[:, 0]]
+        def compute_affinity(self, *args, **kwargs):
+            r = [int(v) for v in np.asarray(call_arg(args, kwargs, 0, "X"))[:, 0]]
             return A[np.ix_(r, r)]
 
-        def __call__(self, y_pred, affinity, return_grad=False):
+        def __call__(self, *args, **kwargs):
+            y_pred, affinity = call_arg(args, kwargs, 0, "y_pred"), call_arg(args, kwargs, 1, "affinity", "distance")
             r = [int(v) for v in np.asarray(y_pred)[:, 0]]
             seen.append((r, decode_block(affinity, n)))
             if len(seen) > 2 * n + 4:
@@ -468,7 +632,8 @@ def stream_valscore(chk, i, rng):
 
 
 STREAMS = {"batchify": (stream_batchify, 340, 3000), "decorated": (stream_decorated, 140, 1000),
-           "fit": (stream_fit, 48, 400), "path": (stream_path, 8, 60), "valscore": (stream_valscore, 200, 2000)}
+           "fit": (guarded("fit", stream_fit), 60, 480), "refit": (guarded("refit", stream_refit), 48, 360),
+           "path": (guarded("path", stream_path), 8, 60), "valscore": (stream_valscore, 200, 2000)}
 
 
 def main():
@@ -488,7 +653,8 @@ def main():
                 cnt *= 3       # proof obligation broken: widen the failing-input search
             chk.run_stream(name, fn, cnt)
     chk.finish(rule="streams: direct _batchify on every batched/nonparametric estimator with index-tagged data and affinity (n<=40 quick, <=120 thorough, "
-                    "batch_size in 1..n+2/None), mlcl-decorated _batchify, real fits with recorded forward passes / affinity blocks / optimiser steps, "
+                    "batch_size in 1..n+2/None), mlcl-decorated _batchify, real fits (plain and mlcl-decorated) with recorded forward passes / affinity blocks / optimiser steps / "
+                    "the indices the decorated _compute_grads sees, the same estimator refitted on a data set of another size, "
                     "real path() runs with recorded validation blocks and training steps, compute_val_score called directly with stub estimator/objective "
                     "(blocks, len-weighted mean); every stream also against the code model instantiated with the rules regenerated from the sources. non-trivial = at least two batches per epoch (or a nonparametric full-batch case); "
                     "distinct = distinct (estimator, n, batch_size, ...) signature")
